@@ -2,7 +2,7 @@
 from xsvlib.facts import fmt, strip, place_path, walk
 from xsvlib import q
 from . import common as C
-from .store_shared import read_bodies, denotes_field, is_oneshot_await, capture_type_contains, follow_flag_edges, is_follow_flag
+from .store_shared import read_bodies, denotes_field, is_oneshot_await, capture_type_contains, follow_flag_edges, is_follow_flag, flag_implications
 from . import C09 as c09
 
 EXPLANATION = ("Ordering analysis of Store::read and Store::append: the broadcast subscription is taken in the read body itself and cannot "
@@ -194,7 +194,8 @@ def r4(run):
             if si["kind"] != "bool":
                 continue
             c = si["cond"]
-            if c[0] == "call" and c[1].fn == "core::option::Option::<T>::is_none" and denotes_field(run, h, c, "limit"):
+            if (c[0] == "call" and c[1].fn == "core::option::Option::<T>::is_none" and denotes_field(run, h, c, "limit")) \
+                    or "nolimit" in flag_implications(run, h, c):
                 nolimit_edges += q.edge_triples(h, bb, lambda m: m is True)
         run.ob("%s|history|threshold-guard" % C.READ, bool(follow_edges) and bool(nolimit_edges) and q.dominated(h, t.bb, via_edges=follow_edges)
                and q.dominated(h, t.bb, via_edges=nolimit_edges), t.sp, "the threshold is sent only when following without a limit", reason="threshold-guard")
